@@ -992,6 +992,18 @@ add("mergetree-09-hll-args-from-second-sketch", ["C08"], "helpers",
     "    elif isinstance(sketch_array[0], HyperLogLog):\n        sketch_type = \"hll\"\n        sketch_args = sketch_array[0].args",
     "    elif isinstance(sketch_array[0], HyperLogLog):\n        sketch_type = \"hll\"\n        sketch_args = sketch_array[1].args",
     note="parallel_merging of a single HyperLogLog sketch raises IndexError (only the HLL arm)")
+add("mergetree-10-refuses-equal-arguments", ["C08"], "helpers",
+    "        if sketch_args != sketch_array[i].args:", "        if sketch_args == sketch_array[i].args:",
+    note="parallel_merging refuses exactly the sketches it is meant to merge")
+add("logmerge-09-clower-offset-subtracted", ["C09"], "countmin",
+    "                clower = cprime + num_reserved", "                clower = cprime - num_reserved", count=2,
+    note="merged log counters beyond the reserved range come out 2*num_reserved too low")
+add("expo-07-probabilistic-step-never-taken", ["C06"], "countmin",
+    "            if rand < base ** (-cprime):\n", "            if False:\n",
+    note="log counters stop at num_reserved + 1: every larger count is under-estimated")
+add("dfg-15-single-block-skipped", ["C11"], "hashes",
+    "    if nblocks > 0:\n        # Cast complete 64-bit chunks", "    if nblocks > 1:\n        # Cast complete 64-bit chunks",
+    note="keys of 8..15 bytes are hashed without their first 8 bytes")
 add("factory-07-num-reserved-zero-taken-for-unset", ["C16"], "countmin",
     "    elif cms_type == \"log16\":\n        if num_reserved is None:", "    elif cms_type == \"log16\":\n        if not num_reserved:",
     note="CountMin(..., num_reserved=0) builds a log16 sketch with the default 1023: an attached view decodes differently")
